@@ -130,6 +130,7 @@ def dispatch (c : Case) : Res :=
   | "ded" => runDed c
   | "sdoc" => runSDoc c
   | "flipw" => runFlipW c
+  | "tol" => runTol c
   | k => { status := "DISAGREE", detail := s!"unknown case kind {k}" }
 
 partial def readAll (h : IO.FS.Stream) (acc : Array String) : IO (Array String) := do
